@@ -78,6 +78,7 @@ static void *sweep_thread(void *arg)
 				snprintf(j->fail, sizeof j->fail, "rand31 %llu got=%u/%u want=%u", (unsigned long long)v, r, s, want);
 #endif
 #ifdef PURE_ROTENC
+#ifndef VERIF_BLACKBOX
 		} else if (!strcmp(w, "rotenc")) {
 			/* v = ls(2) | next(2) | count(8) | ic(16) */
 			unsigned ls = v & 3, nx = (v >> 2) & 3, ic = (v >> 12) & 0xffff;
@@ -92,6 +93,7 @@ static void *sweep_thread(void *arg)
 			    || (cmask >= 0x3fff && rotenc_count14(&r) != (wcnt & 0x3fff)))
 				snprintf(j->fail, sizeof j->fail, "rotenc %u %u %u %u got=%u/%u/%u want=%u/%u/%u", ls, cnt, ic, nx,
 					 r.last_state, (unsigned)r.count, r.internal_count, nx, wcnt, wic);
+#endif
 #endif
 		}
 	}
@@ -175,13 +177,21 @@ static int walk(uint64_t seed, long nwalks, long steps)
 			total++;
 			unsigned c8 = rotenc_count(&r), c14 = rotenc_count14(&r);
 			const char *bad = NULL;
+#ifndef VERIF_BLACKBOX
 			if (r.internal_count != (uint16_t)P) bad = "position";
-			else if (c8 != (uint8_t)fdiv4(L)) bad = "count";
+			else
+#endif
+			if (c8 != (uint8_t)fdiv4(L)) bad = "count";
 			else if (c14 != (uint16_t)(fdiv4(L) & 0x3fff)) bad = "count14";
 			else if ((c14 & 0xff) != c8) bad = "low8";
 			if (bad) {
 				printf("FAIL walk %s seed=%llu walk=%ld step=%ld P=%lld latched=%lld count=%u count14=%u internal=%u want_count=%u want_count14=%u states=",
-				       bad, (unsigned long long)seed, w, i, (long long)P, (long long)L, c8, c14, r.internal_count,
+				       bad, (unsigned long long)seed, w, i, (long long)P, (long long)L, c8, c14,
+#ifndef VERIF_BLACKBOX
+				       r.internal_count,
+#else
+				       0u,
+#endif
 				       (unsigned)(uint8_t)fdiv4(L), (unsigned)(fdiv4(L) & 0x3fff));
 				/* compress the history as run-length of quarter steps for readability */
 				for (long j = 0; j <= i; j++) putchar('0' + hist[j]);
@@ -202,7 +212,11 @@ static int walk_replay(const char *states)
 		uint8_t nx = (*p - '0') & 3;
 		P += ref_delta(cur, nx); cur = nx; if (!nx) L = P;
 		rotenc_decode(&r, nx);
-		if (r.internal_count != (uint16_t)P || rotenc_count(&r) != (uint8_t)fdiv4(L) || rotenc_count14(&r) != (uint16_t)(fdiv4(L) & 0x3fff)) bad = 1;
+		if (
+#ifndef VERIF_BLACKBOX
+		    r.internal_count != (uint16_t)P ||
+#endif
+		    rotenc_count(&r) != (uint8_t)fdiv4(L) || rotenc_count14(&r) != (uint16_t)(fdiv4(L) & 0x3fff)) bad = 1;
 	}
 	printf("%s P=%lld latched=%lld count=%u count14=%u want_count14=%u\n", bad ? "FAIL" : "OK", (long long)P, (long long)L,
 	       rotenc_count(&r), rotenc_count14(&r), (unsigned)(fdiv4(L) & 0x3fff));
@@ -253,12 +267,14 @@ int main(int argc, char **argv)
 		else if (!strcmp(op, "rand31")) { uint32_t s = (uint32_t)a; uint32_t r = rand31_r(&s); printf("%u %u\n", r, s); }
 #endif
 #ifdef PURE_ROTENC
+#ifndef VERIF_BLACKBOX
 		else if (!strcmp(op, "rotenc")) {
 			rotenc_t r; memset(&r, 0, sizeof r);
 			r.last_state = a; r.count = b; r.internal_count = c;
 			rotenc_decode(&r, (uint8_t)d);
 			printf("%u %u %u %u %u\n", r.last_state, (unsigned)r.count, r.internal_count, rotenc_count14(&r), rotenc_count(&r));
 		}
+#endif
 #endif
 		else puts("bad-op");
 	}
